@@ -148,6 +148,9 @@ type recSender struct {
 	mu   sync.Mutex
 	sent []sentPkt
 	fwd  func(*layers.BFD)
+	// failSend, if set, is asked before every transmission whether the underlay write fails (the
+	// packet is then lost and Send returns an error, as a failing socket write would).
+	failSend func() bool
 }
 
 type sentPkt struct {
@@ -157,6 +160,10 @@ type sentPkt struct {
 
 func (r *recSender) Send(b *layers.BFD) error {
 	r.mu.Lock()
+	if r.failSend != nil && r.failSend() {
+		r.mu.Unlock()
+		return fmt.Errorf("injected send failure")
+	}
 	r.sent = append(r.sent, sentPkt{time.Now(), b.State})
 	f := r.fwd
 	r.mu.Unlock()
@@ -365,12 +372,12 @@ func TestC16(t *testing.T) {
 	rec := evid.New("C16", "(a) exhaustive: transition(s, e) for the protocol-reachable states {Down, Init, Up} x {AdminDown, Down, Init, Up, Timer} vs RFC 5880 section 6.8.6; "+
 		"(b) rapid: histories of 1-30 events (received control packets with any state, intervals 1-400 ms, detect mult 1-3, 1/8 of them packets the RFC says to discard; sleeps of 1-1500 ms) on one real Session under a virtual clock, "+
 		"IsUp compared with the RFC model (state machine + detection time) after every step and the advertised state at the end; (d) then a well-behaved real peer over a loss-free link must bring it up within 10 s; "+
-		"(c) two real sessions over a link with a drawn loss/duplication pattern for 1-20 s, then a loss-free tail of 10 detection times (both up and stable), then silence (down after the detection time). "+
+		"(c) two real sessions over a link with a drawn loss/duplication/send-failure pattern for 1-20 s, then a loss-free tail of 10 detection times (both up and stable), then silence (down after the detection time). "+
 		"Non-trivial: history that reaches Up and leaves it again (timer or Down), or a lossy pair with >= 30 % loss.")
 	defer rec.Flush(t)
 	rec.Assume("virtual clock via testing/synctest; detection times carry a sub-millisecond fraction so that no event lands on a deadline",
 		"transmit jitter (math/rand) is not controlled; oracles only depend on detection deadlines", "Your Discriminator of generated packets is the session's own or zero where legal")
-	rec.Require("reached_up", "left_up_timer", "left_up_down", "discarded_packet", "recovery_checked", "pair_lossy", "pair_silence_down", "advertised_state_checked")
+	rec.Require("reached_up", "left_up_timer", "left_up_down", "discarded_packet", "recovery_checked", "pair_lossy", "pair_send_failure", "pair_silence_down", "advertised_state_checked")
 	sticky := adminDownSticky(t)
 	if sticky {
 		rec.Known(sigAdminDown)
@@ -435,7 +442,8 @@ func TestC16(t *testing.T) {
 			lossLevel := rapid.IntRange(0, 9).Draw(rt, "lossLevel")
 			lossySecs := rapid.IntRange(1, 20).Draw(rt, "lossySeconds")
 			var fail string
-			var lost, delivered int
+			var lost, delivered, sendFailures int
+			sendErrors := rapid.Bool().Draw(rt, "sendErrors")
 			synctest.Test(t, func(t *testing.T) {
 				var mu sync.Mutex
 				lossy, silentA := true, false
@@ -472,6 +480,23 @@ func TestC16(t *testing.T) {
 				}
 				sa.fwd = deliver(b, false)
 				sb.fwd = deliver(a, true)
+				// some losses show up as failing sends (pattern value 8) while the link is lossy
+				sendFail := func() bool {
+					mu.Lock()
+					defer mu.Unlock()
+					if !lossy || !sendErrors {
+						return false
+					}
+					v := pattern[idx%len(pattern)]
+					if v == 8 {
+						idx++
+						lost++
+						sendFailures++
+						return true
+					}
+					return false
+				}
+				sa.failSend, sb.failSend = sendFail, sendFail
 				ctx, cancel := context.WithCancel(context.Background())
 				da, db := make(chan struct{}), make(chan struct{})
 				go func() { _ = a.Run(ctx); close(da) }()
@@ -512,6 +537,9 @@ func TestC16(t *testing.T) {
 			labels := []string{"pair_silence_down"}
 			if lost > 0 {
 				labels = append(labels, "pair_lossy")
+			}
+			if sendFailures > 0 {
+				labels = append(labels, "pair_send_failure")
 			}
 			rec.Case(heavy, fmt.Sprint("pair", pattern, lossLevel, lossySecs), labels...)
 			rec.Eval(lost + delivered)
